@@ -2,6 +2,7 @@
 package c20
 
 import (
+	"bytes"
 	"crypto/sha1"
 	"crypto/sha256"
 	"encoding/hex"
@@ -152,6 +153,18 @@ func exec(w []string) string {
 
 // ---- generation + oracle ---------------------------------------------------------------------------
 
+// aliasPool: refs of every supported hash and of unknown hashes, used to stir the package's buffer pools
+var aliasPool = func() []blob.Ref {
+	var out []blob.Ref
+	for _, t := range []string{"sha1-0beec7b5ea3f0fdbc95d0dd47f3c5bc275da8a33", "sha224-d14a028c2a3a2bc9476102bb288234c415a2b01f828ea62ac5b3e42f",
+		"sha256-e3b0c44298fc1c149afbf4c8996fb92427ae41e4649b934ca495991b7852b855", "foo-0123456789abcdef", "barbaz-00ff"} {
+		if r, ok := blob.Parse(t); ok {
+			out = append(out, r)
+		}
+	}
+	return out
+}()
+
 // jsonSafe: the string can stand between double quotes as a JSON string literal denoting itself
 func jsonSafe(s string) bool {
 	for i := 0; i < len(s); i++ {
@@ -254,6 +267,28 @@ func (g *gen) checkString(s string) {
 				sig = "binary-roundtrip-odd-unknown"
 			}
 			r.Fail(sig, "binary round trip differs for "+s, s, back.String(), []string{"bin " + hs, "unbin " + bn})
+		}
+	}
+	// the encodings handed out belong to the caller: later work of the package (other refs' String,
+	// MarshalBinary, MarshalJSON, formatting – everything that may share buffers) must not change them
+	if d, err := ref.MarshalBinary(); err == nil {
+		d0 := append([]byte{}, d...)
+		j, _ := ref.MarshalJSON()
+		j0 := append([]byte{}, j...)
+		for _, o := range aliasPool {
+			_ = o.String()
+			ob, _ := o.MarshalBinary()
+			oj, _ := o.MarshalJSON()
+			_ = fmt.Sprintf("%v %s", o, ref)
+			_, _ = ob, oj
+		}
+		if !bytes.Equal(d, d0) {
+			r.Fail("binary-encoding-changes-after-later-calls", "the bytes returned by MarshalBinary of "+s+" changed after other refs were formatted/marshalled",
+				fmt.Sprintf("%x", d0), fmt.Sprintf("%x", d), []string{"bin " + hs})
+		}
+		if !bytes.Equal(j, j0) {
+			r.Fail("json-encoding-changes-after-later-calls", "the bytes returned by MarshalJSON of "+s+" changed after other refs were formatted/marshalled",
+				string(j0), string(j), []string{"json " + hs})
 		}
 	}
 	g.op("supported " + hs)
